@@ -134,7 +134,7 @@ func init() {
 		var mu sync.Mutex
 		var failedSingles, batchChecks, partialBatches, txnVariants int64
 		kinds := map[string]bool{}
-		cfg := e1.Config{Alphabet: calls, Depth: depth, Stop: r.TooMany,
+		cfg := e1.Config{ReplayNames: c.ReplayCalls(), Alphabet: calls, Depth: depth, Stop: r.TooMany,
 			Before: func(w *world.World, path []int) interface{} { return w.DumpAll() },
 			After: func(w *world.World, path []int, prev interface{}, obs string) {
 				before := prev.(string)
